@@ -859,8 +859,13 @@ func main() {
 	g := &gen{r: hx.NewRng(*seed), st: st}
 	emit := func(sc scenario) {
 		jb, _ := json.Marshal(sc)
+		// the scenario is written out before it runs: if a Go panic in a loop goroutine kills the process,
+		// the orchestrator still knows which scenario did it
+		fmt.Fprintf(w, "#ELJSON %s\n", jb)
+		w.Flush()
 		line := execScenario(sc)
-		fmt.Fprintf(w, "#ELJSON %s\n%s\n", jb, line)
+		fmt.Fprintf(w, "%s\n", line)
+		w.Flush()
 		if strings.Contains(line, " STUCK,") {
 			st.Hit("outcome:stuck")
 		}
